@@ -42,7 +42,11 @@ SMALL_INT_REWARDS = (0, 0, 1, 1, 2, 3)
 
 @st.composite
 def game_cases(draw, max_inner=9):
-    fam = draw(st.sampled_from(("acyclic", "acyclic", "iso", "stopping", "stopping")))
+    fam = draw(st.sampled_from(("acyclic", "acyclic", "iso", "stopping", "stopping", "twin", "twin")))
+    if fam == "twin":
+        tw = draw(games.twin_games(min_inner=2, max_inner=max_inner - 1, dyadic=True,
+                                   acyclic=draw(st.booleans()), rewards=SMALL_INT_REWARDS + (5, 0.5)))
+        return dict(kind="game", game=tw["game"], alias=tw["alias"], prune=games.coin(draw))
     if fam == "acyclic":
         g = draw(games.stopping_games(min_inner=2, max_inner=max_inner, dyadic=True, acyclic=True,
                                       rewards=SMALL_INT_REWARDS))
@@ -125,6 +129,11 @@ def check_case(case):
         return v
 
     game = case["game"]
+    if case.get("alias"):
+        game = games.apply_alias(game, case["alias"])
+        v.cls("shared_list_object")
+    if "alias" in case:
+        v.cls("twin_states")
     facts = GameFacts(game)
     try:
         if facts.T > T_MAX:
